@@ -242,3 +242,29 @@ Theorem pgcd_divides_both (a b : seq Z) : pdivides (pgcd a b) a /\ pdivides (pgc
 Proof. by have [H1 [H2 _]] := pgcd_is_gcd a b. Qed.
 Theorem pgcd_greatest_list (a b d : seq Z) : pdivides d a -> pdivides d b -> pdivides d (pgcd a b).
 Proof. by have [_ [_ H]] := pgcd_is_gcd a b; apply: H. Qed.
+
+(* ------------------------------------------------------------------ zero operands of lp_upolynomial_gcd over Z (repaired) *)
+Lemma pabs_pnorm (b : seq Z) : pabs (pnorm b) = pabs b.
+Proof. by rewrite /pabs /plc !pnorm_idem. Qed.
+
+Lemma is_gcd_zero_l (b : seq Z) : is_gcd (pabs b) [::] b.
+Proof.
+have Hb : rdvd (Poly (pabs b)) (Poly b) /\ rdvd (Poly b) (Poly (pabs b)).
+  case: (Poly_pabs b) => ->; split; try exact: rdvd_refl.
+    by rewrite -[X in rdvd _ X]opprK; apply: rdvd_opp; apply: rdvd_refl.
+  by apply: rdvd_opp; apply: rdvd_refl.
+split; first by apply/pdividesP; apply: rdvd0.
+split; first by apply/pdividesP; case: Hb.
+move=> d _ /pdividesP Db; apply/pdividesP.
+by apply: rdvd_trans Db _; case: Hb.
+Qed.
+
+Theorem upoly_gcd_Z_zero (mode : Z) (b : seq Z) :
+  upoly_gcd_Z mode [::] b = Some (pabs b) /\ upoly_gcd_Z mode b [::] = Some (pabs b) /\
+  is_gcd (pabs b) [::] b.
+Proof.
+split; first by rewrite /upoly_gcd_Z /= pabs_pnorm.
+split; last exact: is_gcd_zero_l.
+rewrite /upoly_gcd_Z /=; case E: (pnorm b) => [|c l]; last by rewrite -E pabs_pnorm.
+by rewrite /pabs E /=; case: Z.ltb.
+Qed.
